@@ -28,9 +28,13 @@ class OtherEdge(DistEdge):
     """A second user-defined class."""
 
 
+MAG = [1.0]          # magnitude of the positions of every object built below (the comparison is RELATIVE to the norm of the compared part)
+
+
 def mkpose(kind, shift=0.0):
     n = B.FDIM[kind]
     v = [x + shift for x in NUMS[:n]]
+    v = [x * MAG[0] for x in v[:B.DIM[kind]]] + v[B.DIM[kind]:]
     if kind == 'SE2':
         return B.CLS_OF[kind](v[:2], v[2])
     if kind == 'SE3':
@@ -198,7 +202,14 @@ def check(run):
             if st['dir'] == 'none':
                 continue
             counts[st['verdict']] += 1
-            _one(run, st['case'], st['dir'], st['verdict'])
+            # Scale dimension: the same case with positions of ordinary size, of map / UTM size (1e6) and tiny (1e-3); the verdict is stated
+            # relative to the norm of the compared part, so it is the same at every scale
+            for mag in (1.0, 1e6, 1e-3):
+                MAG[0] = mag
+                try:
+                    _one(run, st['case'], st['dir'], st['verdict'])
+                finally:
+                    MAG[0] = 1.0
         run.notes['expected_verdicts'] = counts
         if min(counts.values()) == 0:
             raise tlc.TLCError('vacuity guard: verdict counts %r' % counts)
@@ -214,9 +225,9 @@ def check(run):
 
 def _one(run, m, dirn, expected):
     cls = tuple(m['cls'])
-    key = dict(cat=cls[0], kind=cls[1], mut=m['mut'], part=m['part'])
+    key = dict(cat=cls[0], kind=cls[1], mut=m['mut'], part=m['part'], magnitude=MAG[0])
     run.replayed += 1
-    run.count(key=(cls, m['mut'], m['part'], m['pos'], m['e'], m['tol'], dirn))
+    run.count(key=(cls, m['mut'], m['part'], m['pos'], m['e'], m['tol'], dirn, MAG[0]))
     try:
         x = make(cls)
         y = mutate(cls, m)
@@ -234,7 +245,9 @@ def _one(run, m, dirn, expected):
                 pass
         run.notes['compared_after_evaluation'] = run.notes.get('compared_after_evaluation', 0) + 1
     try:
-        got = x.equals(y, tol) if dirn == 'xy' else y.equals(x, tol)
+        from ..core import library_debug_logging
+        with library_debug_logging(run.replayed % 3 == 0):          # (every third comparison with the library's loggers at DEBUG level)
+            got = x.equals(y, tol) if dirn == 'xy' else y.equals(x, tol)
     except Exception as ex:  # noqa
         run.violation(dict(key, outcome='raised'), 'equals raised %r | case %r direction %s' % (ex, m, dirn), dict(case=m, direction=dirn))
         return
